@@ -250,7 +250,12 @@ def write_baseline():
         print(fid, len(out[fid]["proved"]), "proved;", out[fid]["not_proved"], rec["error"] or "")
     os.makedirs(os.path.join(ROOT, "baseline"), exist_ok=True)
     json.dump(out, open(os.path.join(ROOT, "baseline", "proved.json"), "w"), indent=1)
-    return 0
+    errs = [f for f, r in out.items() if r["error"]]
+    for f in errs:
+        print("BASELINE-ERROR", f, out[f]["error"])
+    print("baseline: %d functions, %d obligations proved, %d not proved, %d checker errors" % (
+        len(out), sum(len(r["proved"]) for r in out.values()), sum(len(r["not_proved"]) for r in out.values()), len(errs)))
+    return 3 if errs else 0
 
 
 def setup():
